@@ -26,61 +26,99 @@ def AgreeOn (k : K) (s₁ s₂ : OState K V) : Prop :=
 /-! ### The synchronisation skeletons the transition systems were written against
 
 `gen/c17sync.go` re-extracts these lists from `/repo`'s working tree on every run into
-`Gen/SyncC17.lean`; `skel_*` in `Theorems/C17.lean` state that they are still the same. -/
+`Gen/SyncC17.lean`; `skel_*` in `Theorems/C17.lean` state that they are still the same.
+
+The lists are in the NORMAL FORM of `gen/nfskel.go` (read its header): the tree of control paths
+of the function, printed depth first.  A line `#n …` is the n-th synchronisation event of its
+path (channel operation, `sync.Map` call, call of the user's constructor or of a `Context`
+method, read/write of a shared cell); `if v … else … endif` splits a path on the value `v` (the
+code after the `if` is repeated in both branches, the positive branch comes first);
+`#n select{ case … }select` splits it into the cases, sorted by their text.  Operands are
+symbolic values: `recv`, `param0`, `recv.field(T)` (an immutable field, named by its type),
+`#n.i` (i-th result of event `#n`), `chan#n` (made by event `#n`), `val#n` (loaded from the
+`sync.Map` by event `#n`), `val#n.slot(d)` (the component of the loaded loader that the storing
+invocation initialised as `d`: `madeChan(cap=1,…)` is the `done` channel, `cell(init=zero)` is
+`cached`, `copy(param0)` is the captured `key`).  Helpers of the package, function literals and
+the loader stored in the map are inlined, so the lists do not depend on how the code is cut
+into functions, on names, on the polarity of conditions or on the order of select cases.
+
+How to read `onceGet` against `Model/C17.lean`: `#0 Load` is `PC.load`; the `else` branch
+(`makeChan`, `send`, `LoadOrStore` of an object holding exactly that channel and a fresh cell)
+is `mk`, `send`, `los`; the events on `val#0` / `val#3` are the loader that was found / that
+`LoadOrStore` returned (NOT the one just created): `recv` is `PC.recv`, the `if #k.1` branch is
+`construct` → `inCtor` (`callFunc recv.field(func($0) $1)` is `c.new`) → store of `cached` →
+`close` → `readCached`; the `else` branch is `readCached` alone. -/
 namespace Expected
 
 /-- `syncutil/onceconstructor.go`: NewOnceConstructor -/
 def newOnceConstructor : List String := [
-  "func func[K comparable, V any](newFunc func(k K) (v V)) (c *OnceConstructor[K, V])",
-  "return &OnceConstructor[K, V]{loaders: &sync.Map{}, new: newFunc}"
+  "func NewOnceConstructor : func(func($0) $1) *OnceConstructor[$0,$1]",
+  "  return obj0:&OnceConstructor[$0,$1]{field(*sync.Map)=obj1:&sync.Map{}, field(func($0) $1)=param0}"
 ]
 
 /-- `syncutil/onceconstructor.go`: OnceConstructor.Get -/
 def onceGet : List String := [
-  "func func(key K) (v V)",
-  "assign loaderVal, inited := c.loaders.Load(key)",
-  "if inited",
-  "return loaderVal.(func() (v V))()",
-  "endif",
-  "var cached V = ",
-  "assign done := make(chan struct{}, 1)",
-  "send done <- struct{}{}",
-  "assign loaderVal, _ = c.loaders.LoadOrStore(key, func() (loaded V) { })",
-  "func{ func() (loaded V)",
-  "assign _, ok := <-done",
-  "if ok",
-  "assign cached = c.new(key)",
-  "expr close(done)",
-  "endif",
-  "return cached",
-  "}func",
-  "return loaderVal.(func() (v V))()"
+  "func (*OnceConstructor[$0,$1]).Get : func($0) $1",
+  "  #0 call (*sync.Map).Load recv.field(*sync.Map) (param0)",
+  "  if #0.1",
+  "    #1 recv val#0.slot(madeChan(cap=1,elem=struct{}))",
+  "    if #1.1",
+  "      #2 callFunc recv.field(func($0) $1)(val#0.slot(copy(param0)))",
+  "      #3 store val#0.slot(cell(init=zero)) <- #2",
+  "      #4 close val#0.slot(madeChan(cap=1,elem=struct{}))",
+  "      #5 load val#0.slot(cell(init=zero))",
+  "      return #5",
+  "    else",
+  "      #2 load val#0.slot(cell(init=zero))",
+  "      return #2",
+  "    endif",
+  "  else",
+  "    #1 makeChan cap=1 elem=struct{}",
+  "    #2 send chan#1 <- zero(struct{})",
+  "    #3 call (*sync.Map).LoadOrStore recv.field(*sync.Map) (param0, store{cell(init=zero), copy(param0)=param0, madeChan(cap=1,elem=struct{})=chan#1})",
+  "    #4 recv val#3.slot(madeChan(cap=1,elem=struct{}))",
+  "    if #4.1",
+  "      #5 callFunc recv.field(func($0) $1)(val#3.slot(copy(param0)))",
+  "      #6 store val#3.slot(cell(init=zero)) <- #5",
+  "      #7 close val#3.slot(madeChan(cap=1,elem=struct{}))",
+  "      #8 load val#3.slot(cell(init=zero))",
+  "      return #8",
+  "    else",
+  "      #5 load val#3.slot(cell(init=zero))",
+  "      return #5",
+  "    endif",
+  "  endif"
 ]
 
 /-- `syncutil/sema.go`: NewChanSemaphore -/
 def newChanSemaphore : List String := [
-  "func func(maxRes uint) (c *ChanSemaphore)",
-  "return &ChanSemaphore{c: make(chan unit, maxRes)}"
+  "func NewChanSemaphore : func(uint) *ChanSemaphore",
+  "  #0 makeChan cap=param0 elem=struct{}",
+  "  return obj0:&ChanSemaphore{field(chan struct{})=chan#0}"
 ]
 
 /-- `syncutil/sema.go`: ChanSemaphore.Acquire -/
 def semaAcquire : List String := [
-  "func func(ctx context.Context) (err error)",
-  "select{",
-  "case send c.c <- unit{}",
-  "return nil",
-  "case recv <-ctx.Done()",
-  "return ctx.Err()",
-  "}select"
+  "func (*ChanSemaphore).Acquire : func(context.Context) error",
+  "  #0 call (context.Context).Done param0 ()",
+  "  #1 select{",
+  "  case recv #0",
+  "    #2 call (context.Context).Err param0 ()",
+  "    return #2",
+  "  case send recv.field(chan struct{}) <- zero(struct{})",
+  "    return nil",
+  "  }select"
 ]
 
 /-- `syncutil/sema.go`: ChanSemaphore.Release -/
 def semaRelease : List String := [
-  "func func()",
-  "select{",
-  "case recv <-c.c",
-  "default",
-  "}select"
+  "func (*ChanSemaphore).Release : func()",
+  "  #0 select{",
+  "  case recv recv.field(chan struct{})",
+  "    return",
+  "  default",
+  "    return",
+  "  }select"
 ]
 
 end Expected
